@@ -296,7 +296,7 @@ func (e *Env) heartbeat(timeout time.Duration) error {
 // demonstrably died or after repeated probes).
 func (e *Env) Heartbeat() error {
 	for i := 0; i < 4; i++ {
-		if e.heartbeat(time.Duration(250*(i+1)) * time.Millisecond) == nil {
+		if e.heartbeat(time.Duration(250*(i+1))*time.Millisecond) == nil {
 			return nil
 		}
 		if FatalCount() > 0 {
@@ -353,4 +353,3 @@ func (e *Env) Stop() error {
 		return ErrWatchdog
 	}
 }
-
